@@ -102,7 +102,12 @@ class Run:
         self.exit_done = False
         self.exit_exc: Any = None
         self.blocked = False
-        self.block_gate: threading.Event | None = None
+        self.blockers: list[tuple[threading.Event, threading.Event]] = []  # (gate, parked), FIFO
+        self.all_gates: list[threading.Event] = []
+        self.nblock_posted = 0  # blockers posted so far
+        self.nblock_parked = 0  # blockers that have started to block the loop
+        self.block_idx = [0] * n  # blockers posted when call c's request was posted
+        self.stop_pending: Any = None
         self.lines: list[tuple[str, str | None]] = []
         self.loop: Any = None
         self.loop_tid = 0
@@ -191,8 +196,13 @@ class Run:
             return True
         spec = self.calls[c]
         out = self.caller_out[c]
-        if self.blocked and self.execs[c] == 0 and out is None:
-            return True  # request parked in front of the blocked loop (counted separately)
+        if self.blocked and self.execs[c] == 0 and not (out is not None and out[0] == "e"):
+            if self.block_idx[c] >= self.nblock_parked:
+                return True  # request still parked in front of the blocked loop
+            # its start_soon request ran before the current blocker: the caller must have the Future
+            if spec["api"] == "soon":
+                return self.future[c] is not None
+            return True
         if out is not None and out[0] == "e" and self.execs[c] == 0:
             return True  # refused
         f = self.future[c]
@@ -220,10 +230,12 @@ class Run:
                 self.loop.call_soon_threadsafe(e.set)
             except RuntimeError:
                 return
-            if not e.wait(WAIT):
+            deadline = time.monotonic() + WAIT
+            while not e.wait(0.002):
                 if self.exit_done or self.loop.is_closed() or not self.loop.is_running():
                     return
-                raise HarnessError("loop round trip timed out")
+                if time.monotonic() > deadline:
+                    raise HarnessError("loop round trip timed out")
 
     def describe(self) -> str:
         return (f"issued={self.issued} entered={self.entered} ended={self.ended} released={self.released} "
@@ -289,7 +301,7 @@ class Run:
 
     def status_str(self, c: int) -> str:
         spec = self.calls[c]
-        if spec["api"] != "task":
+        if spec["api"] != "task" or self.fut_str(c) == "refused":
             return "-"
         out = self.caller_out[c]
         if out is None:
@@ -333,6 +345,7 @@ class Run:
     def do_issue(self, c: int) -> None:
         spec = self.calls[c]
         self.issued[c] = True
+        self.block_idx[c] = self.nblock_posted if self.blocked else 0
         self.ev("issue", c, self.stopped)
         before = self.loop_cls.c15_posted
         t = threading.Thread(target=self.caller, args=(c,), daemon=True, name=f"c15-caller-{c}")
@@ -396,6 +409,10 @@ class Run:
         self.lines.append((f"cancelfut {c}", "env"))
         self.snap()
 
+    async def _stop_in_loop(self, cr: bool) -> None:
+        await self.portal.stop(cr)
+        self.ev("stop", int(cr))  # logged in the loop thread: exact w.r.t. the callables' own events
+
     def do_stop(self, cr: int) -> None:
         if self.stopped or self.exit_thread is not None:
             return
@@ -403,7 +420,7 @@ class Run:
 
         def go() -> None:
             try:
-                self.portal.call(self.portal.stop, bool(cr))
+                self.portal.call(self._stop_in_loop, bool(cr))
                 res["ok"] = True
             except BaseException as e:
                 res["exc"] = e
@@ -412,7 +429,12 @@ class Run:
         t = self.helper(go)
         if self.blocked:
             self.wait_posted(before)
-            self.stop_pending = (t, res)
+            self.stop_pending = (t, res, cr, self.nblock_posted)
+            self.stopped = True
+            self.stop_cr = self.stop_cr or bool(cr)
+            self.lines.append((f"stop {cr}", "env"))
+            self.snap()
+            return
         else:
             t.join(WAIT)
             if t.is_alive():
@@ -421,7 +443,6 @@ class Run:
                 raise HarnessError(f"portal.call(portal.stop) raised {res['exc']!r}")
         self.stopped = True
         self.stop_cr = self.stop_cr or bool(cr)
-        self.ev("stop", cr)
         self.settle()
         self.lines.append((f"stop {cr}", "env"))
         self.snap()
@@ -460,35 +481,48 @@ class Run:
         self.snap()
 
     def do_block(self) -> None:
-        if self.blocked or self.exit_thread is not None:
+        if self.exit_thread is not None:
             return
         gate = threading.Event()
         parked = threading.Event()
 
         def blocker() -> None:
+            self.nblock_parked += 1
             parked.set()
             if not gate.wait(WAIT * 4):
                 self.ev("blocker_timeout")
 
+        self.all_gates.append(gate)
+        before = self.loop_cls.c15_posted
         self.loop.call_soon_threadsafe(blocker)
-        if not parked.wait(WAIT):
-            raise HarnessError("blocker never ran")
+        self.nblock_posted += 1
+        if not self.blocked:
+            if not parked.wait(WAIT):
+                raise HarnessError("blocker never ran")
+        else:
+            self.wait_posted(before)
+        self.blockers.append((gate, parked))
         self.blocked = True
-        self.block_gate = gate
         self.lines.append(("block", "ok"))
 
     def do_unblock(self) -> None:
         if not self.blocked:
             return
-        self.blocked = False
-        assert self.block_gate is not None
-        self.block_gate.set()
-        sp = getattr(self, "stop_pending", None)
-        if sp is not None:
-            sp[0].join(WAIT)
-            if sp[0].is_alive():
-                raise HarnessError("parked portal.stop never returned")
-            self.stop_pending = None
+        gate, _ = self.blockers.pop(0)
+        gate.set()
+        if self.blockers:
+            if not self.blockers[0][1].wait(WAIT):
+                raise HarnessError("next blocker never ran")
+        else:
+            self.blocked = False
+        sp = self.stop_pending
+        if sp is not None and (not self.blocked or sp[3] < self.nblock_parked):
+            # the parked portal.stop() runs one loop cycle after its request: give it round trips
+            if not self.blocked:
+                sp[0].join(WAIT)
+                if sp[0].is_alive():
+                    raise HarnessError("parked portal.stop never returned")
+                self.stop_pending = None
         self.settle()
         self.lines.append(("unblock", "ok"))
         self.snap()
@@ -522,7 +556,8 @@ class Run:
                         self.do_unblock()
                     else:
                         raise ValueError(step)
-                self.do_unblock()
+                while self.blocked:
+                    self.do_unblock()
                 # the end: leave the portal; whatever is still parked at a gate must hold the exit up
                 self.do_exit(0)
                 self.end_state["exit_done_while_live"] = self.exit_done and any(
@@ -535,8 +570,8 @@ class Run:
                 self.exit_thread.join(WAIT)
             self.end_state["exit_alive"] = self.exit_thread is not None and self.exit_thread.is_alive()
         finally:
-            if self.block_gate is not None:
-                self.block_gate.set()
+            for g0 in self.all_gates:
+                g0.set()
             for c in range(self.n):
                 g = self.gates[c]
                 if g is not None and self.loop is not None and not self.loop.is_closed():
@@ -755,7 +790,8 @@ def gen_case(rng: random.Random, max_n: int) -> dict:
 
 def gen_blocked(rng: random.Random) -> dict:
     """requests piled up in front of a blocked loop: calls that pass _check_running before a stop but
-    begin after it; stop racing with issues"""
+    begin after it; stop racing with issues; a second blocker behind the requests, so that the callers
+    hold Futures of tasks that have not begun (Future.cancel() before the task's first step)"""
     n = rng.randint(2, 4)
     calls = [gen_call(rng) for _ in range(n)]
     for c in calls:
@@ -768,14 +804,23 @@ def gen_blocked(rng: random.Random) -> dict:
         steps.append(["issue", c])
     steps.append(["block"])
     parked: list[list] = [["issue", c] for c in range(k, n)]
-    if rng.random() < 0.8:
+    if rng.random() < 0.7:
         parked.insert(rng.randint(0, len(parked)), ["stop", int(rng.random() < 0.4)])
     steps += parked
+    if rng.random() < 0.5:
+        steps.append(["block"])
+        steps.append(["unblock"])
+        for c in range(k, n):
+            if calls[c]["api"] == "soon" and rng.random() < 0.6:
+                steps.append(["cancelfut", c])
     steps.append(["unblock"])
     order = list(range(n))
     rng.shuffle(order)
     for c in order:
-        if rng.random() < 0.8:
+        r = rng.random()
+        if r < 0.25 and calls[c]["api"] == "soon":
+            steps.append(["cancelfut", c])
+        if r < 0.85:
             steps.append(["release", c])
     return {"loop": rng.choice(["asyncio", "uvloop"]), "calls": calls, "steps": steps}
 
